@@ -1,6 +1,6 @@
 (** C06 - the piece layout is an exact partition of the torrent's byte space onto files.
     Statements only: every theorem is closed by [exact] of a lemma of LayoutProofs.v. *)
-From TB Require Import Base LayoutModel LayoutSpec LayoutProofs TorrentModel RunModel GlueProofs.
+From TB Require Import Base LayoutModel LayoutSpec LayoutProofs TorrentModel SolverModel FinderModel RunModel GlueProofs.
 From Coq Require Import Sorted.
 Local Open Scope N_scope.
 
@@ -59,6 +59,15 @@ Theorem C06_loaded_torrent_layout t : torrent_ok t ->
     forall p, In p ps -> p_segs p <> [] /\ (forall sg, p_segs p = [sg] -> s_len sg <> 0) /\ Forall (seg_fits (lens_of t)) (p_segs p).
 Proof. exact (torrent_layout t). Qed.
 
+(** Lifted to the work list the run evaluates: every byte (file k, offset o) of every loaded
+    torrent lies in a segment of some piece of the work list, and that segment
+    is tied to the table entry of that very file (same info-hash, same file index). *)
+Theorem C06_work_list_covers_every_byte ts es ws t k flen o :
+  Forall torrent_ok ts -> work_of es ts = Ok ws -> In t ts -> nth_error (lens_of t) k = Some flen -> o < flen ->
+  exists pc s, In pc ws /\ In s (w_segs pc) /\ e_ih (ps_entry s) = t_info_hash t /\ e_findex (ps_entry s) = k /\
+               ps_off s <= o < ps_off s + ps_len s.
+Proof. exact (fun Hts => work_covers_every_byte ts es Hts ws t k flen o). Qed.
+
 (** Non-vacuity: a layout with empty files first, in the middle and last, file ends on piece ends. *)
 Example C06_example_hypotheses : [0;4;0;4;3;0] <> [] /\ 4 <= u64max /\ hashes_ok [0;4;0;4;3;0] 4 3.
 Proof. split; [discriminate|]. split; [unfold u64max; lia|]. unfold hashes_ok, total; cbn. lia. Qed.
@@ -84,3 +93,4 @@ Print Assumptions C06_byte_in_one_piece.
 Print Assumptions C06_segments_in_file_order.
 Print Assumptions C06_segment_inside_file.
 Print Assumptions C06_loaded_torrent_layout.
+Print Assumptions C06_work_list_covers_every_byte.
